@@ -25,7 +25,13 @@ type c06Case struct {
 	Events []string `json:"events,omitempty"`
 }
 
-const c06Timeout = 30 * time.Millisecond
+// reloads scripted to time out use a timeout that is certain to fire against a
+// backend that blocks until released; all other reloads get one that cannot
+// fire, however loaded the machine is
+const (
+	c06Timeout     = 25 * time.Millisecond
+	c06LongTimeout = 10 * time.Minute
+)
 
 type c06Reader struct {
 	r       db.Reader
@@ -137,7 +143,15 @@ func c06Run(t kit.Fataler, ops []int, readerIdx []int, record bool) {
 			if name != "reload-new-ok" && name != "reload-same-ok" {
 				sawFailing = true
 			}
+			if gated {
+				h.VerifSetReloadTimeout(c06Timeout)
+			} else {
+				h.VerifSetReloadTimeout(c06LongTimeout)
+			}
 			rerr := h.Reload(*dnsserver.NewFullReloadSignal(path))
+			if gated && (rerr == nil || !strings.Contains(rerr.Error(), "timeout")) {
+				fail("timeout-not-reported", "reload %s against a blocked backend returned %v", path, rerr)
+			}
 			if gated {
 				blocked = append(blocked, path)
 			}
@@ -159,7 +173,7 @@ func c06Run(t kit.Fataler, ops []int, readerIdx []int, record bool) {
 				if rerr == nil {
 					fail("bad-reload-accepted", "catch-up of a backend without the validation key was accepted")
 				}
-			} else if rerr != nil && (name == "reload-new-ok" || name == "reload-same-ok") && !strings.Contains(rerr.Error(), "timeout") {
+			} else if rerr != nil && (name == "reload-new-ok" || name == "reload-same-ok") {
 				fail("good-reload-failed", "reload %s: %v", path, rerr)
 			}
 		}
